@@ -119,6 +119,59 @@ def _conversion_steps_rule(ctx, wdt):
         ctx.bad(R, "convert_wdt|not-evaluable", f.where, "a step's guard is not evaluable over the versions: %s" % e, "shape changed")
 
 
+
+def _conversion_keeps_tile_table_rule(ctx, wdt):
+    """"converting a map file between game versions preserves all tile data": the tile table (MAIN: presence flags and area ids
+    per tile) is the one part of a WDT every version shares, so no conversion step has any business writing it.  Every function
+    of conversion.rs is inspected for a write rooted at `<file>.main` (assignment, `&mut` borrow, a mutating method — iter_mut /
+    get_mut / set_* / push / clear / retain ..., or a crate-local method taking `&mut self`)."""
+    R = ctx.rule("C18.conversion-leaves-the-tile-table-alone", "no function of wow-wdt's conversion.rs writes through `<file>.main` (assignment, &mut borrow, mutating method)", floor=5)
+    MUT = re.compile(r"_mut$|^(set_\w+|push|insert|clear|retain|truncate|swap|sort\w*|fill|remove|extend|resize|drain|pop|take|replace|append|dedup\w*|reverse)$")
+    local = {norm(f.path): f for f in wdt.fn_list}
+    for f in wdt.fn_list:
+        if not f.file.endswith("wow-wdt/src/conversion.rs") or f.kind == "Closure" or not f.hir or "::tests::" in f.path:
+            continue
+        ctx.saw_fn(f)
+        body = f.hir["body"]
+
+        def rooted_main(e):
+            e = hirq.strip(e)
+            while e.get("k") in ("field", "index", "mcall", "try", "un"):
+                if e.get("k") == "field" and e["name"] == "main" and hirq.strip(e["e"]).get("k") == "path":
+                    return True
+                e = hirq.strip(e.get("e") or e.get("recv") or {})
+            return False
+        hit = None
+        # values taken out of the table by a loop / closure pattern: `for row in wdt.main.entries.iter_mut()` binds row to table memory
+        alias = set()
+        for lp in hirq.find(body, "for"):
+            if rooted_main(lp["iter"]) or any(x.get("k") == "path" and (x.get("res") or {}).get("local") in alias for x in hirq.walk(lp["iter"])):
+                alias |= set(hirq.pat_binds(lp["pat"]))
+
+        def touches(e):
+            return rooted_main(e) or any(x.get("k") == "path" and (x.get("res") or {}).get("local") in alias for x in hirq.walk(hirq.strip(e)))
+        for x in hirq.walk(body):
+            k = x.get("k")
+            if k in ("assign", "assignop") and touches(x["l"]):
+                hit = hit or (x, "assignment to `%s`" % hirq.render(x["l"])[:50])
+            elif k == "ref" and x.get("mut") and rooted_main(x["e"]):
+                hit = hit or (x, "`&mut %s`" % hirq.render(x["e"])[:50])
+            elif k == "mcall" and touches(x["recv"]):
+                cal = local.get(norm(x.get("fn") or ""))
+                takes_mut = False
+                if cal is not None:
+                    ins = cal.d.get("inputs") or []
+                    takes_mut = bool(ins) and (wdt.ty(ins[0]) or "").startswith("&mut")
+                if takes_mut or (cal is None and MUT.search(x["m"])):
+                    hit = hit or (x, "`%s`" % hirq.render(x)[:60])
+        name = norm(f.path).split("::")[-1]
+        if hit:
+            ctx.bad(R, "%s|writes-main" % name, "%s:%d" % (f.file, hit[0].get("ln") or f.lo), "%s in %s" % (hit[1], name),
+                    "tile presence / area ids are rewritten by a version conversion (from whatever the step consults instead — a placeholder table, a flag): tiles the source map had are gone after the conversion and stay gone after write -> parse")
+        else:
+            ctx.ok(R, {"fn": name})
+
+
 def _wdl_capability_rule(ctx, wdl):
     """WdlVersion's capability tables, decided variant by variant: model names/placements live in the WMO chunk family
     (has_wmo_chunks) or in the ML chunk family that replaced it (has_ml_chunks).  From the first version that has either, every
@@ -243,6 +296,7 @@ def run(ctx):
     wdt = prog.crate("wow_wdt")
     wdl = prog.crate("wow_wdl")
     _conversion_steps_rule(ctx, wdt)
+    _conversion_keeps_tile_table_rule(ctx, wdt)
     _wdt_optional_chunk_gate_rule(ctx, wdt)
     _wdl_loss_guard_rule(ctx, wdl)
     _wdl_capability_rule(ctx, wdl)
@@ -460,7 +514,50 @@ def run(ctx):
                         ctx.bad(R_size, "%s|size" % owner.split("::")[-1], sz.where, "size() returns %d but write() emits %d bytes" % (declared, wd),
                                 "the chunk header announces a length different from its payload: the next chunk is mis-framed")
                 else:
-                    ctx.note_unarmed(R_size, owner.split("::")[-1], "variable-size chunk (size computed from contents)")
+                    # variable-size chunk: the announced size must at least scale with every collection of `self` the writer walks
+                    # (a size computed from a constant count while write() emits what the value holds mis-frames every other table)
+                    def self_fields(n_):
+                        return {x_["name"] for x_ in hirq.walk(n_) if x_.get("k") == "field" and hirq.render(x_["e"]) in ("self", "(*self)", "*self")}
+                    walked = set()
+                    for lp_ in hirq.find(w.hir["body"], "for"):
+                        walked |= self_fields(lp_["iter"])
+                    for c_ in hirq.walk(w.hir["body"]):
+                        if c_.get("k") == "mcall" and c_["m"] in ("iter", "into_iter"):
+                            walked |= self_fields(c_["recv"])
+                    sized = self_fields(sz.hir["body"])
+                    # fields reached through a helper method of self (e.g. self.payload_len()) count as mentioned
+                    for c_ in hirq.walk(sz.hir["body"]):
+                        if c_.get("k") == "mcall" and hirq.render(c_["recv"]) in ("self", "(*self)") :
+                            hf = next((x_ for x_ in crate.fn_list if x_.hir and norm(x_.path) == norm(c_.get("fn") or "")), None)
+                            if hf is not None:
+                                sized |= self_fields(hf.hir["body"])
+                    missing = sorted(walked - sized)
+                    # a table the format fixes in size: the reader refuses any other length (expected_size() announces the same
+                    # expression), so a constant size() is the right one for every value the reader can produce
+                    es_ = fs.get("expected_size")
+                    fixed_by_reader = False
+                    if missing and es_ is not None and es_.hir:
+                        eb_ = hirq.strip(es_.hir["body"])
+                        while eb_.get("k") == "block" and not eb_.get("stmts") and eb_.get("e"):
+                            eb_ = hirq.strip(eb_["e"])
+                        if eb_.get("k") == "call" and (eb_.get("fn") or "").endswith("Option::Some") and hirq.render(eb_["args"][0]) == hirq.render(body):
+                            fixed_by_reader = True
+                    if missing and fixed_by_reader:
+                        ctx.ok(R_size, {"chunk": owner.split("::")[-1], "size": hirq.render(body)[:60], "fixed_by_reader": "expected_size() announces the same constant"})
+                        missing = []
+                        walked = set()
+                        continue_ = True
+                    else:
+                        continue_ = False
+                    if continue_:
+                        pass
+                    elif not walked:
+                        ctx.note_unarmed(R_size, owner.split("::")[-1], "variable-size chunk whose writer walks no collection of self")
+                    elif missing:
+                        ctx.bad(R_size, "%s|size-ignores|%s" % (owner.split("::")[-1], ",".join(missing)), sz.where, "write() emits one run of bytes per element of self.%s, size() never reads it (it returns `%s`)" % (", self.".join(missing), hirq.render(body)[:70]),
+                                "for a value holding another number of elements than size() assumes, the chunk header announces a length different from the payload: the reader rejects the writer's output or silently cuts the table")
+                    else:
+                        ctx.ok(R_size, {"chunk": owner.split("::")[-1], "size": hirq.render(body)[:60], "scales_with": sorted(walked)})
 
     # optional chunk rule
     for path in ("wow_wdt::WdtFile::validate", "wow_wdt::WdtWriter::write"):
